@@ -241,6 +241,7 @@ func run(c *props.Ctx) {
 		c.R.Hold("OWN-5", "modeling:imports", "modeling", fmt.Sprintf("%d imports, none of reflect/unsafe", len(mp.Types.Imports())))
 	}
 	own2(c, own, meshFields)
+	matPointees(c, roots)
 	controlsVerdict(c, ctl)
 }
 
